@@ -16,6 +16,11 @@ def run_case(c):
         # the same chord stamped into the track again as copies (NoteContainer built from another container, and '+')
         from mingus.containers import NoteContainer
         src = [e[2] for b in t.bars for e in b.bar if e[2] is not None and len(e[2]) > 0][:2]
+        # a chord that doubles names at the octave (what holds for a name holds for each of its notes)
+        try:
+            t.add_notes(NoteContainer(["A-2", "A-3", "A-4", "B-3", "B-4", "C-3", "C-5"]), 4)
+        except Exception:
+            pass
         for k, nc in enumerate(src):
             try:
                 t.add_notes(NoteContainer(nc), 4)
